@@ -216,24 +216,54 @@ macro_rules! with_trigger
     }
 }
 
-impl ReactionTriggerBundle for DynBundle
+// One trigger of a dynamic bundle. The bundle itself goes through the library's own tuple implementations of
+// `ReactionTriggerBundle` (flat for two triggers, nested `((a, b), c)` for three), so that `len()`, the collection of
+// reactor types for revoke tokens and the registration walk of tuples - nested ones included - are the real code
+// (seeded changes r20-C06 / r20-C15 live there).
+#[derive(Clone, Copy)]
+pub struct DynOne(DynTrig);
+
+impl ReactionTriggerBundle for DynOne
 {
-    fn len(&self) -> usize { self.n as usize }
+    fn len(&self) -> usize { 1 }
 
     fn collect_reactor_types(self, func: &mut impl FnMut(ReactorType))
     {
-        for t in self.t[..self.n as usize].iter().copied()
-        {
-            with_trigger!(t, |x| func(x.reactor_type()));
-        }
+        with_trigger!(self.0, |x| func(x.reactor_type()));
     }
 
     fn register_triggers(self, commands: &mut Commands, handle: &ReactorHandle)
     {
-        for t in self.t[..self.n as usize].iter().copied()
+        with_trigger!(self.0, |x| x.register(commands, handle));
+    }
+}
+
+macro_rules! as_tuple
+{
+    ($s:expr, |$x:ident| $body:expr) =>
+    {
+        match $s.n
         {
-            with_trigger!(t, |x| x.register(commands, handle));
+            0 => { let $x = (); $body }
+            1 => { let $x = (DynOne($s.t[0]),); $body }
+            2 => { let $x = (DynOne($s.t[0]), DynOne($s.t[1])); $body }
+            _ => { let $x = ((DynOne($s.t[0]), DynOne($s.t[1])), DynOne($s.t[2])); $body }
         }
+    }
+}
+
+impl ReactionTriggerBundle for DynBundle
+{
+    fn len(&self) -> usize { as_tuple!(self, |x| x.len()) }
+
+    fn collect_reactor_types(self, func: &mut impl FnMut(ReactorType))
+    {
+        as_tuple!(self, |x| x.collect_reactor_types(func))
+    }
+
+    fn register_triggers(self, commands: &mut Commands, handle: &ReactorHandle)
+    {
+        as_tuple!(self, |x| x.register_triggers(commands, handle))
     }
 }
 
